@@ -1213,3 +1213,33 @@ def rule_wrap_consistent(ctx):
     if n == 0:
         ctx.undecided("WR.WRAP-CONSISTENT", "writer.write#wrap", fw, fw.node, "no wrapping branch / WRAP store found in a recognised form")
     ctx.floor("WR.WRAP-CONSISTENT", 0)
+
+
+GENFROMTXT_DENY = {"delimiter", "comments", "usecols", "missing_values", "filling_values", "converters", "skip_footer", "autostrip",
+                   "excludelist", "deletechars", "replace_space", "case_sensitive", "usemask", "invalid_raise"}
+
+
+def rule_fast_tokens(ctx):
+    """DATA.FAST-TOKENS: the fast engine tokenises like the reference engine's default splitter (runs of whitespace, every
+    token kept, '#'-free data): genfromtxt/loadtxt is called without the options that change which tokens or rows exist"""
+    p = ctx.p
+    fn = p.func("reader.read_data_section_iterative_numpy_engine")
+    calls = [c for c in walk_shallow(fn.node) if isinstance(c, ast.Call) and isinstance(c.func, ast.Attribute) and c.func.attr in ("genfromtxt", "loadtxt")]
+    if not calls:
+        ctx.undecided("DATA.FAST-TOKENS", fn.qual + "#call", fn, fn.node, "no genfromtxt/loadtxt call in the fast engine")
+        return
+    for c in calls:
+        bad = []
+        for k in c.keywords:
+            if k.arg in GENFROMTXT_DENY and not (isinstance(k.value, ast.Constant) and k.value.value is None):
+                if k.arg == "invalid_raise" and isinstance(k.value, ast.Constant) and k.value.value is True:
+                    continue
+                bad.append("%s=%s" % (k.arg, unparse(k.value)))
+            if k.arg is None:
+                bad.append("**%s" % unparse(k.value))
+        ctx.check(not bad, "DATA.FAST-TOKENS", fn.qual + "#call", fn, c,
+                  "the fast engine splits on runs of whitespace and keeps every row and token (no delimiter/usecols/missing-value/"
+                  "invalid_raise options)",
+                  "the fast engine is called with %s: its tokens or rows differ from the reference engine's (e.g. delimiter='\\t' turns "
+                  "a leading/trailing tab into an extra NaN column)" % ", ".join(bad))
+    ctx.floor("DATA.FAST-TOKENS", 1)
